@@ -150,16 +150,17 @@ def dump_mir(repo="/repo", scratch="/var/tmp/rvh/mir", features_default=False):
             h.update(open(p, "rb").read())
     h.update(open(os.path.join(repo, "Cargo.toml"), "rb").read())
     key = h.hexdigest()[:16]
-    out = os.path.join(scratch, "rubato-%s.mir" % key)
+    out = os.path.join(scratch, "rubato-%s%s.mir" % ("fft-" if features_default else "", key))
     if os.path.exists(out) and os.path.getsize(out) > 1000:
         return out, key
-    copy = os.path.join(scratch, "repo")
+    copy = os.path.join(scratch, "repo-fft" if features_default else "repo")
     shutil.rmtree(copy, ignore_errors=True)
     subprocess.run(["rsync", "-a", "--exclude", "target", "--exclude", ".git", repo + "/", copy + "/"], check=True)
     env = dict(os.environ)
     env["CARGO_NET_OFFLINE"] = "true"
-    cmd = ["cargo", "+nightly", "rustc", "--offline", "--lib", "--no-default-features",
-           "--target-dir", os.path.join(scratch, "target"), "--",
+    cmd = ["cargo", "+nightly", "rustc", "--offline", "--lib", "--no-default-features"] + \
+          (["--features", "fft_resampler"] if features_default else []) + \
+          ["--target-dir", os.path.join(scratch, "target-fft" if features_default else "target"), "--",
            "-Zunpretty=mir", "-Zmir-opt-level=0", "-C", "overflow-checks=on", "-C", "debug-assertions=off"]
     # force a re-run: cargo prints nothing if the unit is fresh
     os.utime(os.path.join(copy, "src", "lib.rs"))
@@ -171,6 +172,6 @@ def dump_mir(repo="/repo", scratch="/var/tmp/rvh/mir", features_default=False):
     shutil.rmtree(copy, ignore_errors=True)
     # keep only the newest few dumps
     dumps = sorted((os.path.getmtime(os.path.join(scratch, x)), x) for x in os.listdir(scratch) if x.endswith(".mir"))
-    for _, x in dumps[:-4]:
+    for _, x in dumps[:-6]:
         os.remove(os.path.join(scratch, x))
     return out, key
